@@ -15,6 +15,7 @@
 //	                               relabelled copies) and checks it with the oracles (violations).
 //	chkp;...                       the same without brute force (larger n): "part" = generators are
 //	                               automorphisms and the array is the orbit partition of the generators
+//	big;<graph6>;<cls>;<gens>;<ds>;<known>   n = 17..70, see big.go (known automorphisms, relabelled copies)
 //	o;<graph6>;<cls> <cls> ...     oracle only: one run per class token (replay form of oracle violations)
 //	seq;<capn>;<item> <item> ...   one NewStorage(capn, capn*(capn-1)/2) / NewOrderedPartition pair pushed
 //	                               through the items in order; item = <graph6>/<cls>[/v<bits>]
@@ -615,6 +616,13 @@ func exec(line string) hx.Result {
 		}
 		return execReset(capn, strings.Fields(f[2]))
 	}
+	if mode == "big" {
+		g := strings.Split(f[2], ";")
+		if len(g) != 4 {
+			return hx.Result{Obs: "badcase"}
+		}
+		return execBig(fam, f[1], g[0], g[1], g[2], g[3])
+	}
 	if mode == "chk" || mode == "chkp" {
 		g := strings.Split(f[2], ";")
 		if len(g) != 3 {
@@ -908,6 +916,8 @@ func gen(g *hx.Gen) {
 			}
 		}
 	}
+	// larger graphs (n = 17..70) with construction-known and metamorphic oracles (big.go)
+	genBig(g)
 	// reuse sequences: ~50 graphs through one storage/partition pair, sizes going up and down
 	for s := 0; s < g.Pick(150, 1500); s++ {
 		capn := g.Rng.Range(4, g.Pick(12, 16))
